@@ -28,22 +28,25 @@ MAX_STATES = 48
 
 
 class St:
-    __slots__ = ("lo", "hi", "snaps", "truth", "gen", "pend")
+    __slots__ = ("lo", "hi", "snaps", "truth", "gen", "pend", "nm")
 
-    def __init__(self, lo=0, hi=0, snaps=None, truth=None, gen=0, pend=None):
+    def __init__(self, lo=0, hi=0, snaps=None, truth=None, gen=0, pend=None, nm=0):
         self.lo, self.hi = lo, hi
         self.snaps = dict(snaps or {})
         self.truth = dict(truth or {})
         self.gen = gen  # bumped by every cursor-affecting operation
         self.pend = dict(pend or {})  # local name -> ('res', lo_before, hi_before, gen_after): result of a sub-parser call
+        self.nm = nm  # gen of the last operation that may have moved the cursor BACK (0: none yet)
 
     def copy(self):
-        return St(self.lo, self.hi, self.snaps, self.truth, self.gen, self.pend)
+        return St(self.lo, self.hi, self.snaps, self.truth, self.gen, self.pend, self.nm)
 
     def shift(self, a, b=None):
         b = a if b is None else b
         s = self.copy()
         s.gen += 1
+        if a is None or a < 0:
+            s.nm = s.gen
         s.lo = None if s.lo is None else s.lo + a
         s.hi = None if (s.hi is None or b is None) else s.hi + b
         return s
@@ -56,7 +59,7 @@ class St:
         return s
 
     def key(self):
-        return (self.lo, self.hi, tuple(sorted(self.snaps.items())), tuple(sorted(self.truth.items())), self.gen, tuple(sorted(self.pend.items())))
+        return (self.lo, self.hi, tuple(sorted(self.snaps.items())), tuple(sorted(self.truth.items())), self.gen, tuple(sorted(self.pend.items())), self.nm)
 
 
 def hull(states):
@@ -67,7 +70,8 @@ def hull(states):
         los = [s.snaps[k][0] for s in states]
         his = [s.snaps[k][1] for s in states]
         snaps[k] = (None if any(x is None for x in los) else min(los), None if any(x is None for x in his) else max(his))
-    return St(lo, hi, snaps, {}, max(s.gen for s in states) + 1, {})
+    g = max(s.gen for s in states) + 1
+    return St(lo, hi, snaps, {}, g, {}, g if any(s.nm for s in states) else 0)
 
 
 def dedup(states):
@@ -122,6 +126,12 @@ class Analyzer:
             if isinstance(e.op, ast.USub):
                 return [(s, ("int", -v[1]) if isinstance(v, tuple) and v[0] == "int" else None) for s, v in outs]
             return [(s, None) for s, v in outs]
+        if (isinstance(e, ast.BoolOp) and isinstance(e.op, ast.Or) and self.use_convention
+                and all(isinstance(v, ast.Call) and isinstance(v.func, ast.Attribute) and isinstance(v.func.value, ast.Name) and v.func.value.id == "self"
+                        and self.is_parser_name(v.func.attr) and not v.args and not v.keywords for v in e.values)):
+            # P1/P2 compose: all falsy => every one restored the index; truthy => the truthy one consumed >= 1 from it
+            m_ = st.mono()
+            return [(m_, ("res", st.lo, st.hi, m_.gen))]
         if isinstance(e, ast.BoolOp):
             is_and = isinstance(e.op, ast.And)
             cur = [(st, None, True)]  # (state, value, still evaluating)
@@ -131,7 +141,7 @@ class Analyzer:
                 nxt = []
                 for s, _ in pending:
                     for s2_, v_ in self.ev(sub, s):
-                      for s2, v in (self.split(s2_, v_) if i < len(e.values) - 1 else [(s2_, v_)]):
+                      for s2, v in self.split(s2_, v_):
                         if i == len(e.values) - 1:
                             results.append((s2, v if isinstance(v, bool) else None))
                         elif v is True:
@@ -144,8 +154,8 @@ class Analyzer:
                             else:
                                 nxt.append((s2, False))
                         else:
-                            # unknown truth: may stop here or continue
-                            results.append((s2, None))
+                            # unknown truth: may stop here (then `and` is falsy / `or` is truthy) or continue
+                            results.append((s2, False if is_and else True))
                             nxt.append((s2, None))
                 pending = nxt
             return self._dd(results)
@@ -179,6 +189,27 @@ class Analyzer:
                 and e.left.id in st.pend and isinstance(e.comparators[0], ast.Constant) and e.comparators[0].value is None):
             v = st.pend[e.left.id]
             return [(st, (("nres",) + v[1:]) if isinstance(e.ops[0], ast.Is) else v)]
+        if isinstance(e, ast.Compare) and len(e.ops) == 1 and isinstance(e.ops[0], (ast.Eq, ast.NotEq)):
+            def is_idx(x):
+                return isinstance(x, ast.Attribute) and isinstance(x.value, ast.Name) and x.value.id == "self" and x.attr == "_index"
+
+            l, r = e.left, e.comparators[0]
+            nm = r if is_idx(l) else (l if is_idx(r) else None)
+            if isinstance(nm, ast.Name) and nm.id in st.snaps:
+                slo, shi = st.snaps[nm.id]
+                if slo is not None and slo == shi and st.lo is not None and st.lo >= slo:
+                    # the cursor has not moved back past the snapshot: either it is exactly there, or strictly beyond
+                    is_eq = isinstance(e.ops[0], ast.Eq)
+                    outs = []
+                    if st.lo == slo:
+                        same = st.copy()
+                        same.lo, same.hi = slo, slo
+                        outs.append((same, is_eq))
+                    if st.hi is None or st.hi > slo:
+                        moved = st.copy()
+                        moved.lo = max(st.lo, slo + 1)
+                        outs.append((moved, not is_eq))
+                    return outs
         if isinstance(e, ast.Compare):
             states = [st]
             for sub in [e.left] + list(e.comparators):
@@ -194,6 +225,11 @@ class Analyzer:
                 if any(isinstance(n, ast.Name) and n.id == "self" for n in ast.walk(e)):
                     states = [s.mono() for s in states]
         return [(s, None) for s in dedup(states)]
+
+    @staticmethod
+    def is_parser_name(name):
+        # _try_parse(f) returns f's result and retreats when it is falsy: the convention transfers
+        return name.startswith(("_parse", "parse_")) or name == "_try_parse"
 
     def _dd(self, outs):
         seen, res = set(), []
@@ -212,8 +248,17 @@ class Analyzer:
         applied only if nothing touched the cursor since the call."""
         if isinstance(v, tuple) and v[0] in ("res", "nres"):
             _, lo0, hi0, gen = v
-            if s.gen != gen or not self.use_convention:
+            if not self.use_convention:
                 return [(s, None)]
+            if s.gen != gen:
+                # the cursor was touched after the call.  P1 (falsy => restored) says nothing any more; P2 (truthy => at
+                # least one token consumed at that time) still bounds the cursor from below if nothing since could move it
+                # back
+                if s.nm > gen or lo0 is None:
+                    return [(s, None)]
+                t = s.copy()
+                t.lo = lo0 + 1 if t.lo is None else max(t.lo, lo0 + 1)
+                return [(t, True), (s, False)] if v[0] == "res" else [(t, False), (s, True)]
             t, f = s.copy(), s.copy()
             if lo0 is not None:
                 t.lo = lo0 + 1 if t.lo is None else max(t.lo, lo0 + 1)
@@ -302,13 +347,15 @@ class Analyzer:
             states = [x.copy() for x in states]
             for x in states:
                 x.gen += 1
+                if name == "_retreat":
+                    x.nm = x.gen
         if is_self_method and name == "_advance":
             amt = 1
             if e.args:
                 v = self.ev(e.args[0], st)[0][1]
                 amt = v[1] if isinstance(v, tuple) and v[0] == "int" else None
             for s in states:
-                outs.append((s.shift(amt) if amt is not None else St(None, None, s.snaps, {}), None))
+                outs.append((s.shift(amt) if amt is not None else St(None, None, s.snaps, {}, s.gen + 1, {}, s.gen + 1), None))
             return outs
         if is_self_method and name == "_retreat":
             for s in states:
@@ -347,10 +394,11 @@ class Analyzer:
                 if not tnames and isinstance(f, ast.Name):
                     b = min([0] + [self.bounds[m] for m in self.bounds]) if f.id in ("parser",) else 0
             outs = []
-            is_parser = (is_self_method and name.startswith("_parse")) or bool(tnames if not is_self_method else False)
+            is_parser = (is_self_method and self.is_parser_name(name)) or bool(tnames if not is_self_method else False)
             for s in states:
                 m_ = s.mono()
                 if b < 0:
+                    m_.nm = m_.gen
                     m_.lo = None if m_.lo is None else m_.lo + b
                 outs.append((m_, ("res", s.lo, s.hi, m_.gen) if is_parser else None))
             return outs
@@ -549,6 +597,19 @@ def loop_progress(fn):
     out = []
     loops = [n for n in ast.walk(fn) if isinstance(n, ast.While)]
     for k, w in enumerate(loops):
+        # a loop whose test and body never touch the parser (no call on / with `self`) consumes no input at all: it walks a
+        # finished tree (parent / child links) and is outside this obligation
+        touches = any(isinstance(n, ast.Call) and any(isinstance(m, ast.Name) and m.id == "self" for m in ast.walk(n)) for n in [w.test] + list(ast.walk(w)))
+        if not touches:
+            out.append((k, w, 10**9, "not-a-token-loop"))
+            continue
+        # statement batches: the measure is the chunk index, advanced unconditionally at the loop head by _advance_chunk
+        # (contract in contracts/parser_cursor.py: _chunk_index increases by one)
+        head = w.body[0] if w.body else None
+        if (isinstance(head, ast.Expr) and isinstance(head.value, ast.Call) and isinstance(head.value.func, ast.Attribute)
+                and head.value.func.attr == "_advance_chunk" and "_chunk_index" in ast.unparse(w.test)):
+            out.append((k, w, 10**9, "chunk-index-measure"))
+            continue
         an = Analyzer(fn)
         an.use_convention = True
         exits = []
@@ -562,7 +623,15 @@ def loop_progress(fn):
         except RecursionError:
             out.append((k, w, None, "recursion"))
             continue
-        lo = min([(-(10**9) if b.lo is None else b.lo) for b in back] or [10**9])
+        # only the states that pass the loop test again start another iteration (the test itself may consume input, or
+        # be the truth of a sub-parser result)
+        again = []
+        for b in back:
+            for s2_, v_ in an.ev(w.test, b):
+                for s2, v in an.split(s2_, v_):
+                    if v is not False:
+                        again.append(s2)
+        lo = min([(-(10**9) if b.lo is None else b.lo) for b in again] or [10**9])
         out.append((k, w, lo, ""))
     return out
 
@@ -676,6 +745,8 @@ def main():
             continue
         for k, w, lo, why in loop_progress(fn):
             n_loops += 1
+            if why == "not-a-token-loop":
+                continue  # no obligation: the loop consumes no input
             ok = lo is not None and lo >= 1
             n_prog += ok
             name = f"{rel}:{cls}.{fn.name}#loop{k}"
